@@ -67,10 +67,30 @@ fn skel_strategy(_: &Ctx) -> BoxedStrategy<SkelCase> {
         (vec((0u8..5, any::<u8>(), extra_member()), 0..8), vec((ident(), vec(extra_member(), 0..5)), 0..4), any::<bool>(), 0u8..3, 0u8..3, any::<u8>(), ident(), any::<[u32; 4]>()),
     )
         .prop_map(|((container_version, gap, bones, second_skeleton, backrefs, pad_ints), (extras, extra_types, bone_parent_type, lock_translation, other_variants, container_position, skeleton_name, ids))| {
+            // two skeletons in three list every parent before its children; the third lists bones in any order
+            // (a parent may sit in a later slot of the table than its child)
+            let n = bones.len();
+            let anywhere = ids[3] % 3 == 0;
             let bones = bones
                 .into_iter()
                 .enumerate()
-                .map(|(i, (name, p, pose))| BoneM { name, parent: if i == 0 || p % 5 == 0 { -1 } else { (p as usize % i) as i16 }, pose })
+                .map(|(i, (name, p, pose))| {
+                    let parent = if p % 5 == 0 {
+                        -1
+                    } else if anywhere {
+                        let q = p as usize % n;
+                        if q == i {
+                            -1
+                        } else {
+                            q as i16
+                        }
+                    } else if i == 0 {
+                        -1
+                    } else {
+                        (p as usize % i) as i16
+                    };
+                    BoneM { name, parent, pose }
+                })
                 .collect();
             SkelCase { container_version, gap, bones, second_skeleton, backrefs, pad_ints, extras, extra_types, bone_parent_type, lock_translation, other_variants, container_position, skeleton_name, ids }
         })
